@@ -85,6 +85,23 @@ pub struct SearchResult {
 /// open known finding (returns its key).
 pub type KnownFn<'a> = &'a (dyn Fn(&Violation, &Value) -> Option<String> + Sync);
 
+/// A panic escaping from a case is a defect of the harness (panics of the code
+/// under test are caught by the engines): report and give no verdict.
+fn guarded(check: &dyn Check, tapes: &[Vec<u16>], want: bool) -> CaseReport {
+    match std::panic::catch_unwind(std::panic::AssertUnwindSafe(|| check.run_case(tapes, want))) {
+        Ok(r) => r,
+        Err(p) => {
+            let m = p
+                .downcast_ref::<&str>()
+                .map(|s| s.to_string())
+                .or(p.downcast_ref::<String>().cloned())
+                .unwrap_or_default();
+            println!("INCONCLUSIVE: the harness itself panicked on a case: {m}; tapes={tapes:?}");
+            std::process::exit(2);
+        }
+    }
+}
+
 fn sample_points(i: u64) -> bool {
     matches!(i, 1 | 7 | 60 | 500 | 4000 | 30000)
 }
@@ -135,14 +152,14 @@ pub fn search(
                         return Ok(());
                     }
                     let want = !was_failed && (sample_points(stats.evaluations + 1));
-                    let rep = check.run_case(&tapes, want || was_failed);
+                    let rep = guarded(check, &tapes, want || was_failed);
                     let mut fatal: Option<Violation> = None;
                     for v in &rep.violations {
                         if v.prop == prop {
                             let dec = rep.decoded.clone().unwrap_or(Value::Null);
                             let dec = if dec.is_null() && !was_failed {
                                 // need the decoded case to classify
-                                check.run_case(&tapes, true).decoded.unwrap_or(Value::Null)
+                                guarded(check, &tapes, true).decoded.unwrap_or(Value::Null)
                             } else {
                                 dec
                             };
@@ -182,7 +199,7 @@ pub fn search(
                 });
                 if let Err(TestError::Fail(_reason, tapes)) = res {
                     // re-run the minimal case to get violation + decoded form
-                    let rep = check.run_case(&tapes, true);
+                    let rep = guarded(check, &tapes, true);
                     let dec = rep.decoded.clone().unwrap_or(Value::Null);
                     let viol = rep
                         .violations
